@@ -371,6 +371,7 @@ def main():
                'eigenvalue statements (unchanged spectra, scaling of buckling loads/frequencies) follow from the matrix relations by congruence and scaling of the pencil')
     run.outside = ['eigen-solver numerics', 'orders above the bound', 'uniform-membrane-state equals constant-load matrix for non-zero states (needs the state to be representable; integrand-level identity is C03)']
     res = pmap(kprop.job, [(__name__, c) for c in cf])
+    res = kprop.explore_loci(__name__, res, run)      # second pass: the equality loci the executed code branched on
     kprop.handle(run, res, build, 'entries differ between the two equivalent descriptions')
     run.extra['programs'] = len({c['group'] for c in cf})
     run.extra['disagreements_checked'] = len(run.violations) + len(run.known_hits)
